@@ -36,12 +36,12 @@ import (
 // case format
 
 type Expr struct {
-	T string `json:"t"`           // and | or | paren | atom
-	L *Expr  `json:"l,omitempty"` // and/or: left; paren: inner
-	R *Expr  `json:"r,omitempty"`
-	K string `json:"k,omitempty"` // atom: tag key
-	O string `json:"o,omitempty"` // eq neq re nre in notin
-	V string `json:"v,omitempty"` // eq/neq: literal value; re/nre: pattern
+	T  string   `json:"t"`           // and | or | paren | atom
+	L  *Expr    `json:"l,omitempty"` // and/or: left; paren: inner
+	R  *Expr    `json:"r,omitempty"`
+	K  string   `json:"k,omitempty"`  // atom: tag key
+	O  string   `json:"o,omitempty"`  // eq neq re nre in notin
+	V  string   `json:"v,omitempty"`  // eq/neq: literal value; re/nre: pattern
 	Vs []string `json:"vs,omitempty"` // in/notin: the set (select path only; the show-series path does not implement IN)
 }
 
@@ -54,18 +54,18 @@ type Op struct {
 	// reopen after a crash in the middle of a part merge of the index table: which on-disk state was fabricated between close
 	// and open ("" = clean): A merged part in tmp, no transaction file yet; B transaction file written, nothing executed;
 	// C source part already removed, merged part still in tmp; D merged part renamed into place, transaction file still there
-	Crash string `json:"crash,omitempty"`
-	Expr *Expr       `json:"expr,omitempty"`
-	IDs  []uint64    `json:"ids,omitempty"`  // query: ids by the show-series/drop path (searchTSIDs)
-	IDs2 []uint64    `json:"ids2,omitempty"` // query: ids by the select path (SearchSeriesWithOpts)
+	Crash string   `json:"crash,omitempty"`
+	Expr  *Expr    `json:"expr,omitempty"`
+	IDs   []uint64 `json:"ids,omitempty"`  // query: ids by the show-series/drop path (searchTSIDs)
+	IDs2  []uint64 `json:"ids2,omitempty"` // query: ids by the select path (SearchSeriesWithOpts)
 	// list
 	Series []SeriesOut         `json:"series,omitempty"` // every listed series (one entry per id)
 	Values map[string][]string `json:"values,omitempty"` // tag key -> sorted distinct values
 	Keys   []string            `json:"keys,omitempty"`   // tag keys seen in the listing
 	// clist: listings with a condition and cardinalities
-	Card   uint64            `json:"card"`             // SeriesCardinality(mst, expr)
-	VCard  map[string]uint64 `json:"vcard,omitempty"`  // SearchTagValuesCardinality(mst, key)
-	Only2  bool              `json:"only2,omitempty"`  // query: the predicate has IN / NOT IN atoms, only the select path is observed
+	Card  uint64            `json:"card"`            // SeriesCardinality(mst, expr)
+	VCard map[string]uint64 `json:"vcard,omitempty"` // SearchTagValuesCardinality(mst, key)
+	Only2 bool              `json:"only2,omitempty"` // query: the predicate has IN / NOT IN atoms, only the select path is observed
 }
 
 type SeriesOut struct {
@@ -83,9 +83,9 @@ type AtomRow struct {
 }
 type AtomTab struct {
 	Pat     string    `json:"pat"`
-	AST     *ReAST    `json:"ast"` // the pattern's syntax tree (Go parser, Perl flags): input of the Coq model of the translation
-	VText   string    `json:"vtext"` // tagFilter.value after Init: cache-key text and the expression doPrune compiles
-	Prune   *ReAST    `json:"prune"` // syntax tree of VText
+	AST     *ReAST    `json:"ast"`     // the pattern's syntax tree (Go parser, Perl flags): input of the Coq model of the translation
+	VText   string    `json:"vtext"`   // tagFilter.value after Init: cache-key text and the expression doPrune compiles
+	Prune   *ReAST    `json:"prune"`   // syntax tree of VText
 	Literal bool      `json:"literal"` // pattern is a pure literal
 	Anchors bool      `json:"anchors"` // pattern contains an explicit position assertion (^ $ \A \z \b \B)
 	Rows    []AtomRow `json:"rows"`
@@ -844,7 +844,9 @@ func (rn *runner) doCondList(mst string, x *Expr) {
 			}
 		}
 	}
-	sort.Slice(op.Series, func(i, j int) bool { return canon(op.Series[i].Mst, op.Series[i].Tags) < canon(op.Series[j].Mst, op.Series[j].Tags) })
+	sort.Slice(op.Series, func(i, j int) bool {
+		return canon(op.Series[i].Mst, op.Series[i].Tags) < canon(op.Series[j].Mst, op.Series[j].Tags)
+	})
 	rn.c.Ops = append(rn.c.Ops, op)
 }
 
@@ -1438,7 +1440,17 @@ func main() {
 	if os.Getenv("C10_NO_MATRIX") == "" {
 		// the pattern x value matrix of the regular-expression translation (deterministic, once per run)
 		dir := filepath.Join(base, "matrix")
-		gen.Emit(regexMatrix(dir, append(append([]string{}, pats...), matrixPats...)))
+		all := append(append([]string{}, pats...), matrixPats...)
+		ngen := 60
+		if gen.Tier() != "quick" {
+			ngen = 600
+		}
+		gp := genPatterns(gen.FromEnv(14), ngen, all)
+		gm := map[string]bool{}
+		for _, p := range gp {
+			gm[p] = true
+		}
+		gen.Emit(regexMatrix(dir, append(all, gp...), gm))
 		os.RemoveAll(dir)
 	}
 	// corpus / replay files first
